@@ -25,7 +25,13 @@ fn new_job_activity() -> (Activity, Job) {
 }
 
 fn template<const K: usize>(closed: bool) -> (Tour, Vec<Job>) {
-    let actor = actor_with(vehicle_with(Dimensions::default(), costs(0., 0., 0.)), 0, 0., if closed { Some(0) } else { None }, 1000.);
+    let actor = actor_with(
+        vehicle_with(Dimensions::default(), costs(0., 0., 0.)),
+        0,
+        0.,
+        if closed { Some(0) } else { None },
+        1000.,
+    );
     let mut tour = Tour::new(&actor);
     std::mem::forget(actor);
     let mut jobs = Vec::new();
@@ -81,7 +87,13 @@ fn check_wf(tour: &Tour, closed: bool, expected: &[Job]) {
         }
         legs += 1;
     }
-    let expected_legs = if total == 1 { 1 } else if closed { total - 1 } else { total };
+    let expected_legs = if total == 1 {
+        1
+    } else if closed {
+        total - 1
+    } else {
+        total
+    };
     assert!(legs == expected_legs);
 }
 
